@@ -25,9 +25,11 @@ pub fn dispatch(op: &str, a: &[Arg]) -> Option<String> {
             let flag = a[0].n() & 1 != 0;
             let other = (a[0].n() >> 1) as u16;
             let raw = a[1].b().to_vec();
+            // optional third argument: an entry comment of its own (default: the same bytes as the name)
+            let cm = if a.len() > 2 { a[2].b().to_vec() } else { raw.clone() };
             let e = E {
                 name: raw.clone(),
-                comment: raw.clone(),
+                comment: cm.clone(),
                 flags: (if flag { 1 << 11 } else { 0 }) | other,
                 made_by: (3 << 8) | 20,
                 ..Default::default()
@@ -41,7 +43,7 @@ pub fn dispatch(op: &str, a: &[Arg]) -> Option<String> {
             let rawn = f.name_raw().to_vec();
             drop(f);
             let mut tag = String::new();
-            if comment != name {
+            if a.len() <= 2 && comment != name {
                 tag.push_str(" COMMENT-DIFF");
             }
             if arc != raw {
@@ -61,7 +63,11 @@ pub fn dispatch(op: &str, a: &[Arg]) -> Option<String> {
                     tag.push_str(" STREAM-META-DIFF");
                 }
             }
-            format!("[{} {}]{}", ob(&name), ob(&rawn), tag)
+            if a.len() > 2 {
+                format!("[{} {} {}]{}", ob(&name), ob(&rawn), ob(&comment), tag)
+            } else {
+                format!("[{} {}]{}", ob(&name), ob(&rawn), tag)
+            }
         }
         // wname x<utf8>: give the string to the writer as an entry name, read it back
         "wname" => {
